@@ -200,6 +200,14 @@ def generate(r):
                 spawned[str(child)] = parent
                 owner = main if parent < 0 else scripts[parent]
                 owner.insert(r.randint(0, len(owner)), ["spawn", child])
+    # every sent value is unique in the whole network: renumber (fiber, position) -> value, keeping each script's order
+    for f, script in enumerate(scripts):
+        for number, op in enumerate(script):
+            if op[0] in ("send", "gsend", "send_closed"):
+                op[2] = (f + 1) * 1000 + number
+    for number, op in enumerate(main):
+        if op[0] in ("send", "gsend", "send_closed"):
+            op[2] = 90000 + number
     # in half of the networks the values are heap objects (strings built at run time) that are reachable only
     # through the channel buffer or the parked sender while in flight
     return {"caps": caps, "scripts": scripts, "main": main, "join": join, "variants": variants, "heap": r.random() < 0.5,
